@@ -22,6 +22,16 @@ func (in *interpreter) deepEqual(T types.Type, a, b value, depth int) bool {
 	}
 	switch t := T.Underlying().(type) {
 	case *types.Pointer:
+		// unique.Handle's pointer field carries the value itself (uniqH): pointer equality of canonical
+		// pointers is value equality; a zero handle holds a nil *value
+		ha, aIsH := a.(uniqH)
+		hb, bIsH := b.(uniqH)
+		if aIsH || bIsH {
+			if !(aIsH && bIsH) {
+				return false
+			}
+			return in.deepEqual(ha.t, ha.v, hb.v, depth+1)
+		}
 		pa, pb := a.(*value), b.(*value)
 		if pa == pb {
 			return true
@@ -118,6 +128,9 @@ func (in *interpreter) deepCopy(T types.Type, v value, depth int) value {
 	}
 	switch t := T.Underlying().(type) {
 	case *types.Pointer:
+		if h, isH := v.(uniqH); isH {
+			return h
+		}
 		p := v.(*value)
 		if p == nil {
 			return p
